@@ -198,7 +198,16 @@ pub fn worker(w: &mut Worker) {
                 // middle of an argument, at the very end of the line, in front of trailing white
                 // space and of a comment, and right in front of the closing quote
                 let tails: &[&str] = if in_quotes { &["z\"", "\""] } else { &["z", "", " ", " # c"] };
-                for (pos, tail) in (0..3usize).flat_map(|p| tails.iter().map(move |t| (p, *t))) {
+                let leads = ["", "\\${v}", "\\n", "\\\\m"];
+                let mut combos: Vec<(usize, &str, &str)> = vec![];
+                for p in 0..3usize {
+                    for t in tails.iter() {
+                        for l in leads.iter() {
+                            combos.push((p, *t, *l));
+                        }
+                    }
+                }
+                for (pos, tail, lead) in combos {
                     if c.is_empty() && !dollar && tail == "\"" {
                         // `"\"` is an escaped quote in an unterminated argument: another error kind
                         continue;
@@ -207,7 +216,9 @@ pub fn worker(w: &mut Worker) {
                         continue;
                     }
                     let esc = if dollar { format!("\\${}", c) } else { format!("\\{}", c) };
-                    let line = format!("{}{}{}", prefix, esc, tail);
+                    // alone in its argument, and behind an earlier well-formed escape of the same
+                    // argument (what one escape leaves in the scanner must not change how the next is read)
+                    let line = format!("{}{}{}{}", prefix, lead, esc, tail);
                     let valid = if dollar { c == "{" } else { matches!(c, "n" | "r" | "t" | "\\" | "\"") };
                     let mut ls = vec!["echo before", "x = set 1", "echo after"];
                     ls.insert(pos, &line);
@@ -361,7 +372,7 @@ pub fn crash_sig(_case: &Value, kind: &str) -> String {
     kind.to_string()
 }
 
-pub const RULE: &str = "enumeration (no duplicates within a phase): planted malformed line (6 kinds x 4-5 spellings) at every position among every choice of well-formed lines (pool of 10), LF and CRLF; pairs of malformed lines; the escape table (a backslash, and a backslash-dollar, followed by each of 18 characters in 6 argument positions (four on command lines, two on pre-processor lines), in the middle of an argument / at the end of the line / before trailing white space / before a comment / before the closing quote, at every line position: only the documented escapes parse, all others are rejected with ControlWithoutValidValue); every sequence of tokens from a pool of 14; lines of 10^4 and 10^5 repeated characters of each class; texts of 20000 (thorough 10^6) lines, well-formed and with a malformed line in the middle / at the end; every text up to the length bound over {a SP \" \\ # = : ! $ { LF CR} (+TAB, e-acute). Oracle: no panic; Ok => one instruction per line with line numbers 1..n, no source tag, blank/comment lines Empty, each line parses alone to the same instruction; Err(kind,k) => 1<=k<=n and line k alone is rejected with the same kind; planted error => that kind and line. Non-trivial: the text contains one of \" \\ # = : !; states = distinct (verdict, error kind, error line, line count) classes, transitions = parse_text calls on whole texts";
+pub const RULE: &str = "enumeration (no duplicates within a phase): planted malformed line (6 kinds x 4-5 spellings) at every position among every choice of well-formed lines (pool of 10), LF and CRLF; pairs of malformed lines; the escape table (a backslash, and a backslash-dollar, followed by each of 18 characters in 6 argument positions (four on command lines, two on pre-processor lines), in the middle of an argument / at the end of the line / before trailing white space / before a comment / before the closing quote, alone and behind an earlier well-formed escape (\\${v}, \\n, \\\\) of the same argument, at every line position: only the documented escapes parse, all others are rejected with ControlWithoutValidValue); every sequence of tokens from a pool of 14; lines of 10^4 and 10^5 repeated characters of each class; texts of 20000 (thorough 10^6) lines, well-formed and with a malformed line in the middle / at the end; every text up to the length bound over {a SP \" \\ # = : ! $ { LF CR} (+TAB, e-acute). Oracle: no panic; Ok => one instruction per line with line numbers 1..n, no source tag, blank/comment lines Empty, each line parses alone to the same instruction; Err(kind,k) => 1<=k<=n and line k alone is rejected with the same kind; planted error => that kind and line. Non-trivial: the text contains one of \" \\ # = : !; states = distinct (verdict, error kind, error line, line count) classes, transitions = parse_text calls on whole texts";
 pub const ASSUMPTIONS: &[&str] = &["no !include_files directive in the texts (C14 covers includes)"];
 pub const EXHAUSTIVE: bool = true;
 pub const WALL_CAP_S: (u64, u64) = (50, 1500);
